@@ -34,6 +34,9 @@ func (c *Ctx) setBig(z value, t *Term, pos token.Pos) value {
 	if p == nil {
 		panic(tpanic("nil pointer dereference (*big.Int receiver) at " + c.posStr(pos)))
 	}
+	if len(c.frozen) > 0 && c.frozen[p] {
+		c.unsupported("write through a merged (frozen) *big.Int obtained from a symbolic map lookup at %s", c.posStr(pos))
+	}
 	*p = bigVal{t}
 	return p
 }
